@@ -47,7 +47,7 @@ BOUND = {
                  "group-key tuples"),
 }
 TIME_CAP = {"quick": 480, "thorough": 3000}
-BOUND["quick"] += '; a key whose name contains the names of other entries; operands that are products of deepcopy / filter / map / JSON round trip / modify / a slice (lists of <= 2 items a side, aggregates of <= 3 items); aggregate, in-place move of an item, aggregate again'
+BOUND["quick"] += '; a key whose name contains the names of other entries; operands that are products of deepcopy / filter / map / JSON round trip / modify / a slice (lists of <= 2 items a side, aggregates of <= 3 items); aggregate, in-place move of an item, aggregate again; aggregates of <= 3 items with the key values -1 and -2 (equal hashes, unequal values)'
 BOUND["thorough"] += "; plus the additions listed for the quick tier"
 
 JOINS = ["left_join", "inner_join", "semi_join", "anti_join", "full_join"]
@@ -443,6 +443,10 @@ def run_shard(shard, rec):
                 renamed = [{"function": x["k"], "keys": x["k2"], "id": x["id"]} for x in items]
                 for by in (["function"], ["keys"], ["function", "keys"]):
                     check_case({"part": "agg", "items": renamed, "by": by}, rec)
+                # distinct key values with EQUAL hashes (hash(-1) == hash(-2) in CPython) are still distinct groups (seeded C16-r12-1)
+                collide = [dict(x, k={1: -1, 2: -2}.get(x["k"], x["k"])) for x in items]
+                for by in AGG_BY:
+                    check_case({"part": "agg", "items": collide, "by": by}, rec)
 
 
 # ---------------------------------------------------------------------------
